@@ -14,6 +14,8 @@ structure D where
   sys : Sys := ⟨[], []⟩
   cfg : Option Cfg := none
   st : MState := {}
+  /-- a capped replay leaves no meaningful MDA state: later runs of the same object are not replayed -/
+  poisoned : Bool := false
 
 def parseGroups (s : String) : Option (List (List Nat)) :=
   if s = "[]" then some [] else (s.splitOn "|").mapM parseNatList?
@@ -48,14 +50,19 @@ def step' (d : D) (line : String) : D × String :=
     | some algo, some res, some groups, some widx, some tol, some maxit, some scal, some omega, some acc =>
       let c : Cfg := { algo := algo, res := res, groups := groups, warmIdx := widx, tol := tol, maxIter := maxit,
                        scaling := scal, omega := omega, accel := acc, warmStart := warm == "1" }
-      ({ d with cfg := some c, st := {} }, "ok")
+      ({ d with cfg := some c, st := {}, poisoned := false }, "ok")
     | _, _, _, _, _, _, _, _, _ => (d, "bad-cfg")
   | ["run", fuel, consts, start] =>
     match d.cfg, fuel.toNat?, parseRatList? consts, parseRatList? start with
     | some c, some fuel, some consts, some start =>
+      if d.poisoned then (d, "capped it=0 hist=[] raw=[] out=[]") else
       let sys : Sys := ⟨List.zipWith (fun (r : Row) k => { r with const := k }) d.sys.rows consts, d.sys.discs⟩
       let r := execute sys c fuel d.st start
       let st' : MState := { sd := r.sd, lastOut := some r.data }
+      if r.outcome == .capped then
+        ({ d with poisoned := true },
+          s!"capped it={r.hist.length} hist={showRatList r.hist} raw={showRatList r.raw} out=[]")
+      else
       ({ d with st := st' },
         s!"{showOutcome r.outcome} it={r.hist.length} hist={showRatList r.hist} raw={showRatList r.raw} out={showRatList r.data}")
     | _, _, _, _ => (d, "bad-run")
